@@ -342,6 +342,101 @@ fn sweep_item(rep: &Report, local: &mut Local, item: &Item, part: usize, parts: 
     }
 }
 
+/// Complete code space of the fixed part of the frame header: every value of header bytes 2 and 3 (block-size
+/// code, sample-rate code, channel assignment, sample-size code, reserved bit) x a list of first bytes of
+/// the coded frame number, with the CRC-8 forged at every header length the format allows (5..=16 bytes), so
+/// that whatever length the parser derives from the codes, one variant passes the header checksum and the
+/// body is parsed under the altered header. Only "no panic" is judged (the alteration exceeds 8 bits).
+fn header_space(rep: &Arc<Report>, items: &[Item], thorough: bool) {
+    let numbers: Vec<u8> = if thorough { (0..=255u8).collect() } else { vec![0x00, 0x01, 0x7F, 0x80, 0xC2, 0xE0, 0xF0, 0xF8, 0xFC, 0xFE, 0xFF] };
+    let use_items: Vec<&Item> = items.iter().filter(|i| i.bytes.len() > i.frames_start + 20).take(if thorough { 6 } else { 3 }).collect();
+    let ni = use_items.len();
+    par_for(
+        rep,
+        ni * 256,
+        Duration::from_secs(900),
+        |i| json!({"header_space": use_items[i / 256].name, "byte2": i % 256}),
+        |i, local| {
+            let item = use_items[i / 256];
+            let fs = item.frames_start;
+            let b2 = (i % 256) as u8;
+            let mut data = item.bytes.clone();
+            let mut panics = 0u64;
+            for b3 in 0..=255u8 {
+                for &b4 in &numbers {
+                    data.copy_from_slice(&item.bytes);
+                    data[fs + 2] = b2;
+                    data[fs + 3] = b3;
+                    data[fs + 4] = b4;
+                    for hl in 5..=16usize {
+                        if fs + hl > data.len() {
+                            break;
+                        }
+                        let keep = data[fs + hl - 1];
+                        data[fs + hl - 1] = crate::strictflac::crc8(&data[fs..fs + hl - 1]);
+                        local.evals += 1;
+                        if let Err((class, what)) = judge(item, &data, false) {
+                            panics += 1;
+                            rep.violation(&class, &format!("{} / header code space byte2={b2:#04x} byte3={b3:#04x} number={b4:#04x} crc8@{hl}: {what}", item.name), mutation_json(item, "raw", json!({"bytes": data})), (b2 as u64) << 8 | b3 as u64);
+                        }
+                        data[fs + hl - 1] = keep;
+                    }
+                }
+            }
+            local.count("header_space_inputs", 256 * numbers.len() as u64 * 12);
+            if panics == 0 {
+                local.nontrivial.insert(universe::fnv(&format!("hs{}#{b2}", item.name)));
+            }
+        },
+    );
+    rep.extra("header_space", json!({"streams": ni, "byte2_x_byte3": 65536, "number_bytes": numbers.len(), "crc8_positions": 12}));
+}
+
+/// EVERY 3-byte input (2^24) to the subframe parser, followed by a fixed tail, for block sizes and sample
+/// widths the stream parser can hand to it (the widths of STREAMINFO and the side-channel width above them).
+fn subframe_space(rep: &Arc<Report>, thorough: bool) {
+    let params: Vec<(usize, usize)> = if thorough {
+        vec![(1, 8), (2, 8), (3, 8), (16, 8), (1, 9), (2, 12), (1, 16), (2, 17), (16, 16), (1, 24), (1, 25), (2, 25), (5, 20), (16, 25), (33, 13)]
+    } else {
+        vec![(1, 8), (2, 8), (16, 8), (1, 17), (1, 25), (16, 25)]
+    };
+    let tails: [u8; 2] = [0x00, 0xFF];
+    let np = params.len();
+    par_for(
+        rep,
+        np * 2 * 256,
+        Duration::from_secs(900),
+        |i| json!({"subframe_space": params[i / 512], "tail": tails[(i / 256) % 2], "byte0": i % 256}),
+        |i, local| {
+            let (bs, bps) = params[i / 512];
+            let tail = tails[(i / 256) % 2];
+            let b0 = (i % 256) as u8;
+            let mut buf = [tail; 12];
+            buf[0] = b0;
+            let mut accepted = 0u64;
+            for b1 in 0..=255u8 {
+                buf[1] = b1;
+                for b2 in 0..=255u8 {
+                    buf[2] = b2;
+                    let r = panicx::catch(|| {
+                        let mut p = parser::subframe::<nom::error::Error<(&[u8], usize)>>(bs, bps);
+                        p((&buf[..], 0usize)).is_ok()
+                    });
+                    match r {
+                        Ok(ok) => accepted += u64::from(ok),
+                        Err(pn) => rep.violation(&pn.class(), &format!("parser::subframe({bs}, {bps}) panicked on {:02x?}: {}", &buf[..], pn.describe()), json!({"parser_mutation": {"kind": "subframe_input", "detail": {"bs": bs, "bps": bps, "bytes": buf.to_vec()}}}), 1),
+                    }
+                }
+            }
+            local.evals += 65536;
+            local.count("subframe_inputs", 65536);
+            local.count("subframe_inputs_accepted", accepted);
+            local.nontrivial.insert(universe::fnv(&format!("sf{bs}/{bps}/{tail}/{b0}")));
+        },
+    );
+    rep.extra("subframe_space", json!({"params_block_size_x_width": params, "tails": tails, "inputs_per_param": 1u64 << 25}));
+}
+
 fn random_inputs(rep: &Arc<Report>, items: &[Item], count: usize) {
     let chunk = 250;
     par_for(
@@ -394,6 +489,19 @@ pub fn run(args: &Args, rep: &Arc<Report>) {
         let v: Value = serde_json::from_str(&s).unwrap_or(Value::Null);
         let c = v.get("case").cloned().unwrap_or(v);
         let m = &c["parser_mutation"];
+        if m["kind"].as_str() == Some("subframe_input") {
+            let d = &m["detail"];
+            let (bs, bps) = (d["bs"].as_u64().unwrap() as usize, d["bps"].as_u64().unwrap() as usize);
+            let buf: Vec<u8> = d["bytes"].as_array().unwrap().iter().map(|x| x.as_u64().unwrap() as u8).collect();
+            if let Err(pn) = panicx::catch(|| {
+                let mut p = parser::subframe::<nom::error::Error<(&[u8], usize)>>(bs, bps);
+                p((&buf[..], 0usize)).is_ok()
+            }) {
+                rep.violation(&pn.class(), &format!("parser::subframe({bs}, {bps}) panicked: {}", pn.describe()), c.clone(), 1);
+            }
+            rep.set_rule("replay of one recorded subframe input");
+            return;
+        }
         let case: Case = serde_json::from_value(m["case"].clone()).expect("replay file holds no parser mutation");
         let samples = case.input.samples();
         let (stream, bytes) = subject::encode_bytes(&case, &samples, Mode::St).ok().expect("cannot re-encode the corpus stream");
@@ -446,12 +554,14 @@ pub fn run(args: &Args, rep: &Arc<Report>) {
         },
     );
     random_inputs(rep, &items, if thorough { 10_000 } else { 2_000 });
+    header_space(rep, &items, thorough);
+    subframe_space(rep, thorough);
     for it in items.iter().take(3) {
         rep.sample(json!({"corpus_stream": it.name, "bytes": it.bytes.len(), "case": it.case}));
     }
     rep.extra("corpus", json!(items.iter().map(|i| json!({"name": i.name, "bytes": i.bytes.len()})).collect::<Vec<_>>()));
     rep.set_rule(&format!(
-        "corpus of {ni} small emitted streams (all subframe types, all stereo modes, widths 8/12/16/24, explicit block-size and sample-rate codes); for each: every non-zero XOR mask on every frame byte (includes every single-bit flip and every burst inside a byte), every burst of width 2..=8 with both end bits flipped and every middle pattern at every bit offset crossing a byte border, truncation after every byte, every value of the byte at ~27 grammar cut points, every value of two bytes at 4 cut points, every value of each frame-header byte and of the first 6 body bytes of every frame with CRC-8 / CRC-16 recomputed (content that passes the checksums), plus {} pseudo-random inputs (a fixed list: raw, after a valid STREAMINFO, after a valid header start, spliced into a valid stream); oracle: parser::stream never panics; a frame-level alteration of at most 8 bits is rejected or decodes to identical audio; decoding an accepted stream never panics; non-trivial = a (stream, byte class) work item that completed",
+        "corpus of {ni} small emitted streams (all subframe types, all stereo modes, widths 8/12/16/24, explicit block-size and sample-rate codes); for each: every non-zero XOR mask on every frame byte (includes every single-bit flip and every burst inside a byte), every burst of width 2..=8 with both end bits flipped and every middle pattern at every bit offset crossing a byte border, truncation after every byte, every value of the byte at ~27 grammar cut points, every value of two bytes at 4 cut points, every value of each frame-header byte and of the first 6 body bytes of every frame with CRC-8 / CRC-16 recomputed (content that passes the checksums); the COMPLETE code space of header bytes 2-3 (block-size, sample-rate, channel, sample-size codes, reserved bit) x first number bytes with the CRC-8 forged at every admissible header length; EVERY 3-byte input (2^24) x 2 tails to parser::subframe for block sizes x widths the stream parser can pass; plus {} pseudo-random inputs (a fixed list: raw, after a valid STREAMINFO, after a valid header start, spliced into a valid stream); oracle: parser::stream never panics; a frame-level alteration of at most 8 bits is rejected or decodes to identical audio; decoding an accepted stream never panics; non-trivial = a (stream, byte class) work item that completed",
         if thorough { 10_000 } else { 2_000 }
     ));
 }
